@@ -174,7 +174,7 @@ void harness(void) {
 '''
 
 def prepare(tier, vf):
-    gendir = os.path.join(vf.BUILD, "gen", "C12")
+    gendir = os.path.join(vf.BUILD, "gen", vf.tree_hash(), "C12")
     hdir = os.path.join(gendir, "h")
     os.makedirs(hdir, exist_ok=True)
     for f in os.listdir(hdir):
